@@ -1,17 +1,32 @@
 #![no_main]
-//! bytes -> (shape, data) / (a, b) / (tweak, x) / (seed, len) vs. the reference implementations.
+//! bytes -> (shape, data) / (a, b) / (tweak, x) / (seed, len) / slice hashes / generator operation sequences vs. the reference implementations.
 use arbitrary::Unstructured;
 use libfuzzer_sys::fuzz_target;
 use pvf::checks::c20::{Case, test_case};
 
 fn decode(data: &[u8]) -> arbitrary::Result<Case> {
     let mut u = Unstructured::new(data);
-    Ok(match u.int_in_range(0..=4u8)? {
+    Ok(match u.int_in_range(0..=6u8)? {
         0 => Case::Transpose { rows: 128 * u.int_in_range(1..=3usize)?, cols: 8 * u.int_in_range(2..=96usize)?, seed: u.arbitrary()?, density: u.arbitrary()?, offset: u.int_in_range(0..=15usize)?, portable_only: false },
         1 => Case::Transpose { rows: 16 * u.int_in_range(1..=24usize)?, cols: 8 * u.int_in_range(2..=48usize)?, seed: u.arbitrary()?, density: u.arbitrary()?, offset: u.int_in_range(0..=15usize)?, portable_only: true },
         2 => Case::Clmul { a: u.arbitrary()?, b: u.arbitrary()? },
         3 => Case::Hash { tweak: u.arbitrary()?, x: u.arbitrary()? },
-        _ => Case::Rng { seed: u.arbitrary()?, len: u.int_in_range(0..=1100usize)? },
+        4 => Case::Rng { seed: u.arbitrary()?, len: u.int_in_range(0..=1100usize)? },
+        5 => Case::HashSlice { seed: u.arbitrary()?, len: u.int_in_range(0..=70usize)? },
+        _ => {
+            let seed = u.arbitrary()?;
+            let k = u.int_in_range(1..=8usize)?;
+            let mut ops = vec![];
+            for _ in 0..k {
+                ops.push(match u.int_in_range(0..=5u8)? {
+                    0 => 1200u16,
+                    1 => 1201,
+                    2 => u.int_in_range(0..=1199u16)?,
+                    _ => u.int_in_range(0..=80u16)?,
+                });
+            }
+            Case::RngOps { seed, ops }
+        }
     })
 }
 
